@@ -237,6 +237,19 @@ func checkC16Render(c C16RenderCase) error {
 				data, _ = twig.SerializeCompiledTemplate(ct)
 				what = "second engine, AST replaced by garbage"
 			}
+			if variant%2 == 0 {
+				// the template was last modified long before it was compiled (a file compiled later)
+				ct, err := twig.DeserializeCompiledTemplate(data)
+				if err != nil {
+					return fmt.Errorf("deserialize failed: %v", err)
+				}
+				ct.LastModified = 1500000000 + int64(variant)
+				data, _ = twig.SerializeCompiledTemplate(ct)
+			}
+			orig, err := twig.DeserializeCompiledTemplate(data)
+			if err != nil {
+				return fmt.Errorf("deserialize failed: %v", err)
+			}
 			// the engine is handed a buffer the caller reuses afterwards
 			buf := append([]byte(nil), data...)
 			r := guard(func() (string, error) { return "", eB.LoadFromCompiledData(buf) })
@@ -245,6 +258,15 @@ func checkC16Render(c C16RenderCase) error {
 			}
 			if r.Failed() {
 				return fmt.Errorf("%s: LoadFromCompiledData(%q) failed: %v", what, name, r)
+			}
+			// compiled again on the receiving engine: name, source and modification time are the ones
+			// that were loaded
+			if again, err := eB.CompileTemplate(name); err != nil {
+				return fmt.Errorf("%s: CompileTemplate(%q) after LoadFromCompiledData failed: %v", what, name, err)
+			} else if again.Name != orig.Name || again.Source != orig.Source || (again.LastModified != orig.LastModified && orig.LastModified != 0) {
+				// (a modification time of 0 means "not set": RegisterTemplate documents that it puts the
+				// registration time there)
+				return fmt.Errorf("%s: %q loaded from compiled data and compiled again has name %q, %d source bytes, modification time %d; the loaded data had %q, %d, %d", what, name, again.Name, len(again.Source), again.LastModified, orig.Name, len(orig.Source), orig.LastModified)
 			}
 		}
 		if variant == 1 {
